@@ -818,4 +818,167 @@ Proof.
   intros p s H. apply (loop_ok _ _ _ _ (fun Hi : inv (init p) = true => ltac:(discriminate Hi)) H).
 Qed.
 
+
+(* ================= the constructor's error class ================= *)
+Lemma ext_inv : forall s s', ext s s' -> inv s = true -> inv s' = true.
+Proof. intros s s' [A _] H. congruence. Qed.
+
+Lemma bracket_inv : forall f s s', inv s = true -> bracket_loop f s = Some s' -> inv s' = true.
+Proof.
+  induction f; intros s s' Hs H; [discriminate|]. simpl in H.
+  destruct (inp s). { inversion H; subst. reflexivity. }
+  destruct (z =? 93). { inversion H; subst. exact (ext_inv _ _ (ext_pass s) Hs). }
+  destruct (z =? 92).
+  - eapply IHf; [|exact H]. eapply ext_inv; [|exact Hs].
+    eapply ext_trans; [apply ext_read | apply ext_scan_escape].
+  - eapply IHf; [|exact H]. exact (ext_inv _ _ (ext_pass s) Hs).
+Qed.
+
+Lemma loop_inv : forall f top s s', inv s = true -> loop top f s = Some s' -> inv s' = true.
+Proof.
+  induction f; intros top s s' Hs H; [discriminate|]. simpl in H.
+  destruct (inp s). { destruct top; inversion H; subst; [exact Hs | reflexivity]. }
+  destruct (z =? 92).
+  { eapply IHf; [|exact H]. eapply ext_inv; [|exact Hs].
+    eapply ext_trans; [apply ext_read | apply ext_scan_escape]. }
+  destruct (z =? 40).
+  { destruct (loop false f (la_check (pass s))) as [s1|] eqn:E; [|discriminate].
+    eapply IHf; [|exact H]. eapply IHf; [|exact E].
+    eapply ext_inv; [|exact Hs]. eapply ext_trans; [apply ext_pass | apply ext_la]. }
+  destruct (z =? 91).
+  { destruct (bracket_loop f (pass s)) as [s1|] eqn:E; [|discriminate].
+    eapply IHf; [|exact H]. eapply bracket_inv; [|exact E]. exact (ext_inv _ _ (ext_pass s) Hs). }
+  destruct (z =? 41).
+  { destruct top.
+    - eapply IHf; [|exact H]. eapply ext_inv; [apply ext_pass|]. reflexivity.
+    - inversion H; subst. exact (ext_inv _ _ (ext_pass s) Hs). }
+  eapply IHf; [|exact H]. exact (ext_inv _ _ (ext_pass s) Hs).
+Qed.
+
+Lemma loop_final : forall p f X, loop true f (init p) = Some X ->
+  loop true (S (length p)) (init p) = Some X.
+Proof.
+  intros p f X H.
+  destruct (loop_total (S (length p)) true (init p)) as (s' & A & _); [unfold ilen, init; simpl; lia|].
+  pose proof (loop_mono _ _ _ _ A (Nat.max f (S (length p))) ltac:(lia)) as A1.
+  pose proof (loop_mono _ _ _ _ H (Nat.max f (S (length p))) ltac:(lia)) as A2.
+  rewrite A1 in A2. inversion A2; subst. exact A.
+Qed.
+
+Lemma transform_nonempty : forall p s, p <> [] -> loop true (S (length p)) (init p) = Some s ->
+  transform p = Some ((if inv s then [] else out s), match err s with None => false | Some _ => true end).
+Proof. intros [|c p] s Hp H; [contradiction|]. unfold ModelTransform.transform. rewrite H. reflexivity. Qed.
+
+(* a ")" that closes nothing, after any well-formed tree and before any text at
+   all: TransformRegExp answers ("", error) *)
+Theorem transform_unmatched_paren : forall r x, wf r = true ->
+  transform (print_js r ++ 41 :: x) = Some ([], true).
+Proof.
+  intros r x Hw.
+  set (A := mk (41 :: x) ([] ++ print_re2 r) (merge None (first_err r)) false).
+  destruct (loop_total (S (ilen A)) true A (Nat.lt_succ_diag_r _)) as (X & HX & _).
+  assert (I : inv X = true).
+  { change (loop true (S (ilen A)) A) with (loop true (ilen A) (pass (set_inv (add_err 3 A)))) in HX.
+    eapply loop_inv; [|exact HX]. reflexivity. }
+  assert (E : err X <> None).
+  { apply (loop_ok _ _ _ _ (fun Hi : inv A = true => ltac:(discriminate Hi)) HX). exact I. }
+  pose proof (loop_re r Hw true (41 :: x) [] None false (fun _ => eq_refl)) as R.
+  destruct (R _ _ HX) as (f1 & Hf1).
+  apply loop_final in Hf1.
+  rewrite (transform_nonempty _ X); [| intro N; apply app_eq_nil in N as [_ N]; discriminate | exact Hf1].
+  rewrite I. destruct (err X); [reflexivity|contradiction].
+Qed.
+
 End P.
+
+(* ---------- flags (repaired in /repo 784edea) ---------- *)
+Definition gim (c : Z) : Prop := c = 103 \/ c = 105 \/ c = 109.
+
+Lemma flags_loop_spec : forall l g i m re2,
+  flags_loop l g i m re2 <> None <->
+  (Forall gim l /\ NoDup l /\ (g = true -> ~ In 103 l) /\ (i = true -> ~ In 105 l) /\ (m = true -> ~ In 109 l)).
+Proof.
+  induction l as [|c l IH]; intros g i m re2; simpl.
+  - split; [intros _; repeat split; auto; constructor | discriminate].
+  - destruct (Z.eqb_spec c 103) as [->|N1].
+    { destruct g.
+      - split; [intro H; contradiction|]. intros (_ & _ & G & _). exfalso. apply (G eq_refl). left; reflexivity.
+      - rewrite IH. split.
+        + intros (F & D & G & I & M). repeat split.
+          * constructor; [left; reflexivity|exact F].
+          * constructor; [apply G; reflexivity|exact D].
+          * discriminate.
+          * intros Hi [E|E]; [discriminate|]. exact (I Hi E).
+          * intros Hm [E|E]; [discriminate|]. exact (M Hm E).
+        + intros (F & D & _ & I & M). inversion F; subst. inversion D; subst. repeat split; auto.
+          * intros Hi E. apply (I Hi). right; exact E.
+          * intros Hm E. apply (M Hm). right; exact E. }
+    destruct (Z.eqb_spec c 109) as [->|N2].
+    { destruct m.
+      - split; [intro H; contradiction|]. intros (_ & _ & _ & _ & M). exfalso. apply (M eq_refl). left; reflexivity.
+      - rewrite IH. split.
+        + intros (F & D & G & I & M). repeat split.
+          * constructor; [right; right; reflexivity|exact F].
+          * constructor; [apply M; reflexivity|exact D].
+          * intros Hg [E|E]; [discriminate|]. exact (G Hg E).
+          * intros Hi [E|E]; [discriminate|]. exact (I Hi E).
+          * discriminate.
+        + intros (F & D & G & I & _). inversion F; subst. inversion D; subst. repeat split; auto.
+          * intros Hg E. apply (G Hg). right; exact E.
+          * intros Hi E. apply (I Hi). right; exact E. }
+    destruct (Z.eqb_spec c 105) as [->|N3].
+    { destruct i.
+      - split; [intro H; contradiction|]. intros (_ & _ & _ & I & _). exfalso. apply (I eq_refl). left; reflexivity.
+      - rewrite IH. split.
+        + intros (F & D & G & I & M). repeat split.
+          * constructor; [right; left; reflexivity|exact F].
+          * constructor; [apply I; reflexivity|exact D].
+          * intros Hg [E|E]; [discriminate|]. exact (G Hg E).
+          * discriminate.
+          * intros Hm [E|E]; [discriminate|]. exact (M Hm E).
+        + intros (F & D & G & _ & M). inversion F; subst. inversion D; subst. repeat split; auto.
+          * intros Hg E. apply (G Hg). right; exact E.
+          * intros Hm E. apply (M Hm). right; exact E. }
+    split; [intro H; contradiction|]. intros (F & _). inversion F; subst. unfold gim in *. lia.
+Qed.
+
+(* ES5 15.10.4.1: the flags are accepted iff they contain only g, i, m, each at most once *)
+Theorem parse_flags_es5 : forall l, parse_flags l <> None <-> (Forall gim l /\ NoDup l).
+Proof.
+  intro l. unfold parse_flags. rewrite flags_loop_spec.
+  split; [tauto|]. intros [F D]. repeat split; auto; discriminate.
+Qed.
+
+Lemma re2_nil : forall r, print_re2 r = [] -> supported r = true.
+Proof.
+  induction r; simpl; intro H; try reflexivity; try discriminate.
+  - apply app_eq_nil in H as [H1 H2]. rewrite IHr1, IHr2 by assumption. reflexivity.
+  - apply app_eq_nil in H as [_ H]. discriminate.
+  - apply app_eq_nil in H as [_ H]. unfold print_quant in H. apply app_eq_nil in H as [H _].
+    destruct q; discriminate.
+Qed.
+
+(* the constructor's error class: SyntaxError for bad flags whatever the pattern,
+   SyntaxError for an unmatched ")" (the scanner's `invalid`), TypeError for a
+   well-formed tree that only lacks an engine spelling, nothing for the subset *)
+Theorem ctor_class_cases : forall idc,
+  (forall pat fl, ~ (Forall gim fl /\ NoDup fl) -> ctor_class idc pat fl = 5) /\
+  (forall r x fl, wf r = true -> Forall gim fl -> NoDup fl -> ctor_class idc (print_js r ++ 41 :: x) fl = 5) /\
+  (forall r fl, wf r = true -> supported r = false -> Forall gim fl -> NoDup fl -> ctor_class idc (print_js r) fl = 6) /\
+  (forall r fl, wf r = true -> supported r = true -> Forall gim fl -> NoDup fl -> ctor_class idc (print_js r) fl = 0).
+Proof.
+  intro idc. repeat split.
+  - intros pat fl H. unfold ctor_class. destruct (parse_flags fl) eqn:E; [|reflexivity].
+    exfalso. apply H. apply parse_flags_es5. congruence.
+  - intros r x fl Hw F D. unfold ctor_class.
+    destruct (parse_flags fl) eqn:E; [|exfalso; apply (proj2 (parse_flags_es5 fl) (conj F D)); exact E].
+    rewrite transform_unmatched_paren by exact Hw. reflexivity.
+  - intros r fl Hw Hs F D. unfold ctor_class.
+    destruct (parse_flags fl) eqn:E; [|exfalso; apply (proj2 (parse_flags_es5 fl) (conj F D)); exact E].
+    rewrite transform_unsupported by assumption.
+    destruct (print_re2 r) eqn:P; [|reflexivity].
+    apply re2_nil in P. congruence.
+  - intros r fl Hw Hs F D. unfold ctor_class.
+    destruct (parse_flags fl) eqn:E; [|exfalso; apply (proj2 (parse_flags_es5 fl) (conj F D)); exact E].
+    rewrite transform_supported by assumption. destruct (print_re2 r); reflexivity.
+Qed.
